@@ -215,3 +215,66 @@ def identity_headers(ctx, rule):
                       'identity headers are merged with what the caller '
                       'sent instead of being overwritten', ctx.loc(f, n))
     return n_ok
+
+
+SCOPING_KEYS = ('project_id', 'tenant', 'project', 'roles', 'is_admin',
+                'is_admin_project')
+
+
+def scoping_identity_from_environment(ctx, rule):
+    """MistralContext.from_environ(headers, env): the WSGI environment holds
+    what the auth middleware established (HTTP_X_PROJECT_ID, HTTP_X_ROLES);
+    the keyword arguments computed by _extract_mistral_auth_params win over
+    it (oslo.context uses setdefault).  Whatever scopes DB queries (project,
+    roles, admin flag) must therefore not be among those keyword arguments
+    with a value read from a header the client chooses freely (the
+    X-Target-* family is not touched by any auth handler)."""
+    prog = ctx.prog
+    fe = prog.func(CTX + '.MistralContext.from_environ')
+    ex = prog.func(CTX + '._extract_mistral_auth_params')
+    calls = [c for c in own_nodes(fe.node) if isinstance(c, ast.Call) and
+             U.call_name(c) == '_extract_mistral_auth_params']
+    sup = [c for c in own_nodes(fe.node) if isinstance(c, ast.Call) and
+           U.call_name(c) == 'from_environ']
+    if len(calls) != 1 or len(sup) != 1 or not any(
+            k.arg is None for k in sup[0].keywords):
+        raise AnalysisError('MistralContext.from_environ no longer passes '
+                            'the extracted parameters to oslo.context')
+    hp = ex.params[0]
+    n = 0
+    for d in own_nodes(ex.node):
+        if not isinstance(d, ast.Dict):
+            continue
+        for k, v in zip(d.keys, d.values):
+            if not (isinstance(k, ast.Constant) and k.value in SCOPING_KEYS):
+                continue
+            n += 1
+            rule.check(hp not in U.names_in(v),
+                       ctx.construct(ex, extra="%r from a request header"
+                                     % k.value),
+                       'the %s of the request context is taken from a header '
+                       'the caller chooses (%s) and overrides what the auth '
+                       'middleware put into the WSGI environment: every '
+                       'tenant-scoped query then runs as that project'
+                       % (k.value, norm(v)), ctx.loc(ex, v))
+    for s in own_nodes(ex.node):
+        if isinstance(s, ast.Assign) and any(
+                isinstance(t, ast.Subscript) and
+                isinstance(t.slice, ast.Constant) and
+                t.slice.value in SCOPING_KEYS for t in s.targets):
+            n += 1
+            rule.check(hp not in U.names_in(s.value),
+                       ctx.construct(ex, s),
+                       'a scoping attribute of the request context is '
+                       'assigned from a request header', ctx.loc(ex, s))
+    # the admin flag is derived from the roles of the built context
+    adm = [s for s in own_nodes(fe.node) if isinstance(s, ast.Assign) and
+           any(dotted(t) and dotted(t).endswith('.is_admin')
+               for t in s.targets)]
+    rule.check(len(adm) == 1 and U.phas(
+        adm[0].value, "True if 'admin' in __c.roles else False") or
+        (len(adm) == 1 and U.phas(adm[0].value, "'admin' in __c.roles")),
+        ctx.construct(fe, extra='admin from the roles'),
+        'is_admin is not derived from the roles of the context',
+        ctx.loc(fe))
+    return n
